@@ -516,6 +516,14 @@ impl Ctx {
         self.notes.insert(key.to_string(), json!(cur + n));
     }
 
+    pub fn note_max(&mut self, key: &str, v: u64) {
+        let key = format!("max:{key}");
+        let cur = self.notes.get(&key).and_then(Value::as_u64).unwrap_or(0);
+        if v > cur {
+            self.notes.insert(key, json!(v));
+        }
+    }
+
     pub fn exhaustive(&mut self, what: &str) {
         self.exhaustive.push(what.to_string());
     }
